@@ -754,11 +754,11 @@ impl DecodedInstr {
 fn decode_instructions(mut cur: Cursor<&[u8]>) -> MResult<Vec<DecodedInstr>> {
   let mut out = Vec::new();
   while (cur.position() as usize) < cur.get_ref().len() {
-    // read opcode (u64)
+    // read opcode (u8)
     let pos_before = cur.position();
-    // if remaining < 8, can't read opcode
+    // the shortest instruction (Ret) is 1 opcode byte + one u32 operand
     let rem = cur.get_ref().len() - pos_before as usize;
-    if rem < 8 {
+    if rem < 5 {
       return Err(MechError::new(
         TruncatedInstructionError,
         None
